@@ -434,3 +434,88 @@ type SchemaTree struct {
 	Doc   *ref.SchemaDoc
 	Order []TopItem
 }
+
+// JSONMemberNames are the member names of the library's JSON encoding of documents (the Go
+// field names of the ast types). As GraphQL names they are ordinary identifiers; a decoder
+// that inspects keys carelessly may confuse them with structure.
+var JSONMemberNames = []string{"Alias", "TypeCondition", "Name", "Arguments", "Directives", "SelectionSet", "Definition", "ObjectDefinition", "Position", "Comment", "Kind", "Raw",
+	"Children", "Value", "Operation", "VariableDefinitions", "Fragments", "Operations", "Variable", "Type", "DefaultValue", "NamedType", "Elem", "NonNull", "Start", "End", "Line", "Column", "Src"}
+
+// RenameDoc replaces names of the document (each with probability 1/p) by names drawn from pool;
+// string values too. Every slot that holds an arbitrary name is eligible.
+func RenameDoc(t *rapid.T, d *ref.Doc, pool []string, p int) {
+	pick := func(cur string) string {
+		if cur == "" || rapid.IntRange(0, p-1).Draw(t, "rename") != 0 {
+			return cur
+		}
+		return rapid.SampledFrom(pool).Draw(t, "newname")
+	}
+	var value func(v *ref.Value)
+	value = func(v *ref.Value) {
+		if v == nil {
+			return
+		}
+		switch v.Kind {
+		case "Variable", "Enum", "String":
+			v.Raw = pick(v.Raw)
+		}
+		for _, i := range v.Items {
+			value(i)
+		}
+		for _, f := range v.Fields {
+			f.Name = pick(f.Name)
+			value(f.Value)
+		}
+	}
+	var typ func(ty *ref.Type)
+	typ = func(ty *ref.Type) {
+		for ty != nil {
+			ty.Name = pick(ty.Name)
+			ty = ty.Elem
+		}
+	}
+	dirs := func(ds []*ref.Directive) {
+		for _, x := range ds {
+			x.Name = pick(x.Name)
+			for _, a := range x.Args {
+				a.Name = pick(a.Name)
+				value(a.Value)
+			}
+		}
+	}
+	vars := func(vs []*ref.VarDef) {
+		for _, v := range vs {
+			v.Name = pick(v.Name)
+			typ(v.Type)
+			value(v.Default)
+			dirs(v.Directives)
+		}
+	}
+	var sels func(ss []*ref.Selection)
+	sels = func(ss []*ref.Selection) {
+		for _, s := range ss {
+			s.Alias = pick(s.Alias)
+			s.Name = pick(s.Name)
+			s.TypeCond = pick(s.TypeCond)
+			for _, a := range s.Args {
+				a.Name = pick(a.Name)
+				value(a.Value)
+			}
+			dirs(s.Directives)
+			sels(s.Sels)
+		}
+	}
+	for _, o := range d.Ops {
+		o.Name = pick(o.Name)
+		vars(o.Vars)
+		dirs(o.Directives)
+		sels(o.Sels)
+	}
+	for _, f := range d.Frags {
+		f.Name = pick(f.Name)
+		f.TypeCond = pick(f.TypeCond)
+		vars(f.Vars)
+		dirs(f.Directives)
+		sels(f.Sels)
+	}
+}
